@@ -19,7 +19,7 @@ THEOREMS = ['C04_B_expand_exact', 'C04_B_tree_tidy', 'C04_collapse_is_expand', '
             'C04_A_sound_sentence', 'C04_A_complete_partial', 'C04_A_alg_erasure', 'C04_A_alg_families_sound',
             'C04_A_alg_families_complete', 'C04_A_exact', 'C04_A_complete', 'C04_A_exact_gen', 'C04_A_example',
             'C04_A_dynamic_erasure', 'C04_A_dynamic_sound', 'C04_A_dynamic_sound_checked', 'C04_A_dynamic_families_sound',
-            'C04_A_dynamic_model_sound', 'C04_A_dynamic_example', 'C04_example']
+            'C04_A_dynamic_model_sound', 'C04_A_dynamic_complete_partial', 'C04_A_dynamic_example', 'C04_example']
 GEN_DEPS = []
 RULE = ('random ambiguous grammars (<=4 non-terminals, <=3 alternatives of length <=3, ?rules, _inlined rules, aliases, '
         '[optional] with placeholders, !keep-all rules, filtered anonymous tokens, EBNF * and +), three lexers (basic, '
@@ -1378,8 +1378,8 @@ def correspond(ctx):
     run_stream(ctx, 'ignore', ctx.scale(40, 600) * k, False, 3, cases, meta, defs, acases, ignore=True)
     exotic_f6(ctx, cases, meta, defs)
     check_layer_a(ctx, acases)
-    run_alg_families(ctx, ctx.scale(30, 400) * k)
-    run_dyn_families(ctx, ctx.scale(25, 300) * k)
+    run_alg_families(ctx, ctx.scale(25, 400) * k)
+    run_dyn_families(ctx, ctx.scale(20, 300) * k)
     ctx.extra['layer_A_forests_checked'] = len(acases[0])
     # Coq: the model on the captured forests
     bad, errs = ctx.coq_bad_indices('c04', IMPORTS, 'check_case', cases, chunk=150,
